@@ -153,4 +153,41 @@ def World.ofMsgs (ms : List Msg) : World :=
   { heap := ms.map fun m => m.body.getD [], pool := none,
     slots := ms.zipIdx.map fun (m, i) => { m := m, ref := i } }
 
+/-! ### faults while the logger reads the body
+
+The body of a message whose peer went away yields some bytes and then an error (an origin dropping
+the connection inside a chunked response, a client half-closing inside a chunked upload). The proxy
+forwards a message whatever its modifiers return, so what matters is what the body still yields
+after the logger has seen the message. -/
+
+/-- What a body reader yields when read to its end: `data`, then a clean end or (`err`) an error. -/
+structure FBody where
+  data : Bytes
+  err : Bool
+  deriving DecidableEq, Repr
+
+structure FOutcome where
+  body : FBody
+  record : Option Record
+  err : Bool
+  deriving DecidableEq, Repr
+
+/-- Does the snapshot hand back the bytes it had already consumed when `ReadAll` fails? The code
+does not (`if err != nil { return err }`: the body reader is left where the error struck, and its
+error is sticky): `false`. `repo-patches/C15-fix-snapshot-keeps-read-prefix.patch` makes it `true`. -/
+def snapshotKeepsPrefix : Bool := false
+
+/-- One logger on a message whose body yields `b`. A logger that drains the body (`installs` is
+non-empty: its first step is the snapshot's `ReadAll`) fails on a failing body before it parses,
+decodes or records anything, and returns the read error. Otherwise this is `logMsgT`. -/
+def logFaultK (keep : Bool) (t : Trusted) (l : Logger) (skipLogging : Bool) (m : Msg) (b : FBody) : FOutcome :=
+  let m' := { m with body := some b.data }
+  if b.err && !(installs l skipLogging m').isEmpty then
+    { body := { data := if keep then b.data else [], err := true }, record := none, err := true }
+  else
+    let o := logMsgT t l skipLogging m'
+    { body := b, record := o.record, err := o.err }
+
+def logFault := logFaultK snapshotKeepsPrefix
+
 end Martian.Logging
